@@ -527,10 +527,14 @@ func (s *verifSession) openLayer(l *verifLayer) *verifOpen {
 		}
 		return "ok"
 	}
-	if l.class == "conf" && !verifHasRootEntry(l) && !verifHasRepeatedName(l) {
-		// the layer lies inside the fragment of the Lean theorems (decided by the model's own predicate)
+	if l.class == "conf" && !verifHasRootEntry(l) {
+		// the layer lies inside the fragment of the Lean theorems (decided by the model's own
+		// predicate SpecConformingR: directories may be announced again with the same attributes)
 		out.Emit("spec "+tag, "conf")
 		out.Count("in-proved-fragment")
+		if verifHasRepeatedName(l) {
+			out.Count("in-proved-fragment-repeated-dir")
+		}
 	}
 	out.Emit("open mem "+tag, res(o.memErr))
 	out.Emit("open db "+tag, res(o.dbErr))
